@@ -112,6 +112,22 @@ def ser_redefine(node, data):
     return data
 
 
+def ser_fresh(node, data):
+    """Mapper style 6: returns a dict of its own that has no `data` entry at all (as DictWrapper.serialize_mapper does):
+    the inverse mapper rebuilds the object from the other keys, the string form is not needed."""
+    d = node.data
+    if isinstance(d, Obj):
+        out = {"name": d.name, "extra": d.extra, "guid": d.guid}
+        if "data_id" in data:
+            out["data_id"] = data["data_id"]
+        if isinstance(d, HObj):
+            out["hobj"] = True
+        if isinstance(d, FalsyObj):
+            out["falsy"] = True
+        return out
+    return data
+
+
 def ser_ownkey(node, data):
     """Mapper style 3: stores the id under its own key only; the inverse mapper restores item['data_id']."""
     d = node.data
@@ -212,7 +228,7 @@ def shape(t):
     return rec(list(t.children))
 
 
-def mirror(dicts, kids, mapper_used, bad, path="/", ownkey=False, redefine=False):
+def mirror(dicts, kids, mapper_used, bad, path="/", ownkey=False, redefine=False, fresh=False):
     if not isinstance(dicts, list) or len(dicts) != len(kids):
         bad.append(f"{path}: {len(dicts) if isinstance(dicts, list) else dicts!r} dicts for {len(kids)} nodes")
         return
@@ -220,7 +236,10 @@ def mirror(dicts, kids, mapper_used, bad, path="/", ownkey=False, redefine=False
         if not isinstance(d, dict):
             bad.append(f"{path}: entry is {type(d).__name__}")
             continue
-        if d.get("data") != str(c.data) and not (redefine and isinstance(c.data, Obj)):
+        if fresh and isinstance(c.data, Obj):
+            if "data" in d:
+                bad.append(f"{path}{c.data}: the mapper returned a dict without 'data', the entry has {d.get('data')!r}")
+        elif d.get("data") != str(c.data) and not (redefine and isinstance(c.data, Obj)):
             bad.append(f"{path}: data {d.get('data')!r} != str({c.data!r})")
         default = c.data_id == hash(c.data)
         if default and "data_id" in d:
@@ -232,7 +251,7 @@ def mirror(dicts, kids, mapper_used, bad, path="/", ownkey=False, redefine=False
             bad.append(f"{path}{c.data}: data_id {d.get('data_id', '<missing>')!r} != {c.data_id!r}")
         ck = list(c.children)
         if ck or "children" in d:
-            mirror(d.get("children", []), ck, mapper_used, bad, f"{path}{c.data}/", ownkey, redefine)
+            mirror(d.get("children", []), ck, mapper_used, bad, f"{path}{c.data}/", ownkey, redefine, fresh)
         if mapper_used and isinstance(c.data, Obj) and (d.get("guid") != c.data.guid or d.get("name") != c.data.name):
             bad.append(f"{path}{c.data}: mapper output missing")
         if redefine and isinstance(c.data, Obj) and d.get("data") != "display:" + c.data.name:
@@ -304,7 +323,7 @@ def run_case(case, res):
                 mapper_used = fl in ("obj", "objdefault")
                 src = shape(t)
                 style = case.get("style", 0) if mapper_used else 0
-                ser_f, deser_f = [(ser, deser), (ser_newdict, deser), (ser_ownkey, deser_ownkey), (ser_none, deser), (ser_redefine, deser)][style]
+                ser_f, deser_f = [(ser, deser), (ser_newdict, deser), (ser_ownkey, deser_ownkey), (ser_none, deser), (ser_redefine, deser), (ser_fresh, deser)][style]
                 res.count(f"mapper_style:{style}" if mapper_used else "no_mapper")
                 seen_nodes = []
 
@@ -321,7 +340,7 @@ def run_case(case, res):
                 if isinstance(dl, tuple):
                     bad.append(f"to_dict_list raised {dl!r}")
                 else:
-                    mirror(dl, list(t.children), mapper_used, bad, ownkey=style == 2, redefine=style == 4)
+                    mirror(dl, list(t.children), mapper_used, bad, ownkey=style == 2, redefine=style == 4, fresh=style == 5)
                     if shape(t) != src:
                         bad.append("to_dict_list changed the source")
                     # a second call gives an equal, independent structure (no internal state is handed out)
@@ -375,7 +394,7 @@ def run_case(case, res):
                             bad.append(f"to_dict raised {d!r}")
                             continue
                         b = []
-                        mirror([d], [x], mapper_used, b, ownkey=style == 2, redefine=style == 4)
+                        mirror([d], [x], mapper_used, b, ownkey=style == 2, redefine=style == 4, fresh=style == 5)
                         bad.extend(b)
                         t4 = Tree("t4", calc_data_id=calc_id if fl == "obj" else None)
                         top = t4.add("TOP")
@@ -420,7 +439,7 @@ def run_shard(spec, res):
                 if k % NSHARDS != spec["i"]:
                     continue
                 for fl in FLAVOURS:
-                    for style in ((0, 1, 2, 3, 4) if fl in ("obj", "objdefault") else (0,)):
+                    for style in ((0, 1, 2, 3, 4, 5) if fl in ("obj", "objdefault") else (0,)):
                         run_case({"f": gen.code(f), "flavour": fl, "seed": seed, "style": style}, res)
                         if n >= 3 and (k + style) % 2 == 0:
                             run_case({"f": gen.code(f), "flavour": fl, "seed": seed, "style": style, "prelude": True,
@@ -435,7 +454,7 @@ def run_shard(spec, res):
         rng = rng_for(seed, "c14-rand", spec["i"])
         for j in range(spec["count"]):
             f = gen.random_forest(rng, rng.randint(6, 30))
-            run_case({"f": gen.code(f), "flavour": rng.choice(FLAVOURS), "seed": rng.randrange(10**6), "style": rng.randrange(5),
+            run_case({"f": gen.code(f), "flavour": rng.choice(FLAVOURS), "seed": rng.randrange(10**6), "style": rng.randrange(6),
                       "prelude": rng.random() < 0.5, "ext": rng.random() < 0.3}, res)
             if res.expired():
                 break
